@@ -251,3 +251,63 @@ impl Scheduler for DelaySched {
         0
     }
 }
+
+/// systematic single-demotion exploration: threads run in a fixed priority order (ascending or
+/// descending thread id, timers that are due after the threads); at choice point `at` the thread that
+/// would run next is demoted below everything else -- other threads and due timers -- for the rest of
+/// the execution (the priority change of PCT, placed at every point in turn by the controller).
+pub struct DemoteSched {
+    pub at: usize,
+    pub asc: bool,
+    pub point: usize,
+    pub demoted: Vec<usize>,
+    pub seen: std::sync::Arc<std::sync::Mutex<Vec<u32>>>,
+}
+
+impl DemoteSched {
+    pub fn new(at: usize, asc: bool, seen: std::sync::Arc<std::sync::Mutex<Vec<u32>>>) -> DemoteSched {
+        DemoteSched {
+            at,
+            asc,
+            point: 0,
+            demoted: Vec::new(),
+            seen,
+        }
+    }
+
+    fn pick(&self, menu: &[Opt]) -> usize {
+        let mut best = 0usize;
+        let mut bestk = (u8::MAX, usize::MAX);
+        for (i, o) in menu.iter().enumerate() {
+            let class = match (o.kind, self.demoted.contains(&o.tid)) {
+                (OptKind::Run, false) => 0u8,
+                (OptKind::Fire, _) => 1,
+                (OptKind::Run, true) => 2,
+                _ => 3,
+            };
+            let ord = if self.asc { o.tid } else { usize::MAX - 1 - o.tid };
+            if (class, ord) < bestk {
+                bestk = (class, ord);
+                best = i;
+            }
+        }
+        best
+    }
+}
+
+impl Scheduler for DemoteSched {
+    fn choose(&mut self, menu: &[Opt]) -> usize {
+        let p = self.point;
+        self.point += 1;
+        self.seen.lock().unwrap().push(menu.len() as u32);
+        if menu[0].kind == OptKind::Waiter {
+            return if self.asc { 0 } else { menu.len() - 1 };
+        }
+        let mut c = self.pick(menu);
+        if p == self.at && menu[c].kind == OptKind::Run {
+            self.demoted.push(menu[c].tid);
+            c = self.pick(menu);
+        }
+        c
+    }
+}
